@@ -218,6 +218,12 @@ func (f *archiveFileWriter) Write(p []byte) (int, error) {
 	if err != nil {
 		return 0, err
 	}
+	if f.file != nil {
+		if err := f.file.Close(); err != nil {
+			return 0, err
+		}
+		f.file = nil
+	}
 	file, _, err := f.transfer.createDirOrFile(f.path, srcFile, true)
 	if err != nil {
 		return 0, err
